@@ -140,6 +140,7 @@ pub(crate) fn record_lir(
         });
     }
     LAST_LIR.with(|l| *l.borrow_mut() = Some(out));
+    record_const_layouts(ir, type_info);
 }
 
 /// Take the item list of the last `codegen` on this thread.
@@ -155,4 +156,36 @@ pub fn typecheck_only<Ctx: crate::runtime::OptCtx>(
     rt: &crate::Runtime<Ctx>,
 ) -> Result<(), crate::RotoReport> {
     tree.parse()?.typecheck(rt).map(|_| ())
+}
+
+// ----------------------------------------------------------- constant layouts
+//
+// The layout the code generator allocates for every script constant of the
+// last `codegen` (recorded together with the item list): lets the harness
+// measure which constants are laid out in zero bytes.
+
+thread_local! {
+    static LAST_LAYOUTS: RefCell<Option<Vec<(String, Option<(usize, usize)>)>>> = const { RefCell::new(None) };
+}
+
+fn record_const_layouts(
+    ir: &[crate::lir::Item],
+    type_info: &crate::typechecker::info::TypeInfo,
+) {
+    let mut out = Vec::new();
+    for item in ir {
+        if let crate::lir::ItemKind::Constant { layout, name, .. } = &item.kind {
+            out.push((
+                type_info.full_name(name).as_str().to_string(),
+                layout.as_ref().map(|l| (l.size(), l.align())),
+            ));
+        }
+    }
+    LAST_LAYOUTS.with(|l| *l.borrow_mut() = Some(out));
+}
+
+/// Take (full name, (size, align) of the layout) of every script constant of
+/// the last `codegen` on this thread, in item order (`None`: no layout).
+pub fn take_const_layouts() -> Option<Vec<(String, Option<(usize, usize)>)>> {
+    LAST_LAYOUTS.with(|l| l.borrow_mut().take())
 }
